@@ -201,33 +201,55 @@ structure MatchRes where
   pos : Option (List Nat)
 deriving Repr, DecidableEq
 
+/-- What one term contributes when it decides its OR-group. -/
+structure Hit where
+  s : Int
+  e : Int
+  score : Int
+  pos : Option (List Nat)
+deriving Repr, DecidableEq, Inhabited
+
+def Hit.zero : Hit := ⟨0, 0, 0, none⟩
+
+/-- The inner loop of `extendedMatch` over one OR-group: a non-inverse term that matches decides
+    the group (`break`); an inverse term that does not match satisfies it with an empty offset
+    but lets later terms override; an inverse term that matches, or a non-inverse one that does
+    not, is skipped. `none` = the group is not satisfied. -/
+def setMatch (run : Term → M (Option Hit)) : TermSet → M (Option Hit)
+  | [] => pure none
+  | t :: ts => do
+    match ← run t with
+    | some h => if t.inv then setMatch run ts else pure (some h)
+    | none =>
+      if t.inv then do
+        let r ← setMatch run ts
+        pure (some (r.getD Hit.zero))
+      else setMatch run ts
+
+/-- The outer loop: offsets of the satisfied groups, total score, all positions. -/
+def setsMatch (run : Term → M (Option Hit)) (withPos : Bool) :
+    List TermSet → M (List (Int × Int) × Int × List Nat)
+  | [] => pure ([], 0, [])
+  | ts :: rest => do
+    let r ← setMatch run ts
+    let (offs, total, allPos) ← setsMatch run withPos rest
+    match r with
+    | some h =>
+      let ps := if withPos then (match h.pos with
+        | some ps => ps
+        | none => (List.range (h.e - h.s).toNat).map (· + h.s.toNat)) else []
+      pure ((h.s, h.e) :: offs, h.score + total, ps ++ allPos)
+    | none => pure (offs, total, allPos)
+
+def runTermOn (cfg : Cfg) (pat : Pattern) (toks : List Tok) (withPos : Bool) (slabCap : Nat) (t : Term) : M (Option Hit) := do
+  match ← iter cfg pat.v2 t.typ toks t.cs t.norm pat.forward t.text.toArray withPos slabCap with
+  | some (s, e, score, pos) => pure (some ⟨s, e, score, pos⟩)
+  | none => pure none
+
 def extendedMatch (cfg : Cfg) (pat : Pattern) (toks : List Tok) (withPos : Bool) (slabCap : Nat) :
     M (List (Int × Int) × Int × Option (List Nat)) := do
-  let mut offsets : List (Int × Int) := []
-  let mut total : Int := 0
-  let mut allPos : List Nat := []
-  for ts in pat.termSets do
-    let mut offset : Int × Int := (0, 0)
-    let mut cur : Int := 0
-    let mut matched := false
-    for t in ts do
-      let r ← iter cfg pat.v2 t.typ toks t.cs t.norm pat.forward t.text.toArray withPos slabCap
-      match r with
-      | some (s, e, score, pos) =>
-        if t.inv then continue
-        offset := (s, e); cur := score; matched := true
-        if withPos then
-          match pos with
-          | some ps => allPos := allPos ++ ps
-          | none => allPos := allPos ++ (List.range (e - s).toNat).map (· + s.toNat)
-        break
-      | none =>
-        if t.inv then
-          offset := (0, 0); cur := 0; matched := true
-    if matched then
-      offsets := offsets ++ [offset]
-      total := total + cur
-  return (offsets, total, if withPos then some allPos else none)
+  let (offs, total, allPos) ← setsMatch (runTermOn cfg pat toks withPos slabCap) withPos pat.termSets
+  pure (offs, total, if withPos then some allPos else none)
 
 /-- `MatchItem`: `none` = no match. -/
 def matchItem (cfg : Cfg) (pat : Pattern) (toks : List Tok) (withPos : Bool) (slabCap : Nat) : M (Option MatchRes) := do
